@@ -704,7 +704,7 @@ func {{ .FullName }}Usage() {
 
 {{ printDescription .Description}}
 	{{- range .Flags }}
-    -{{ .Name }} {{ .Type }}: {{ .Description }}
+    -{{ .Name }} {{ .Type }}: {{ printDescription .Description }}
 	{{- end }}
 
 Example:
